@@ -227,7 +227,8 @@ def mutable_case(ctx, i, terms, info, outside=False):
         else:
             stab = "true"
             if not outside:
-                stab = "forallb (fun kv => stableb cls (fst (snd kv))) kids"
+                # the children that end up in the directory (a later name with the same normal form replaces an earlier one)
+                stab = "forallb (fun kv => stableb cls (fst (snd kv))) (sm_of_list (map (fun kv => (nrm (fst kv), snd kv)) kids))"
             t = lets + ("match pack_children nrm bytes dumps_raw aes kids (Some wk) false with inl _ => false | inr d => "
                         "list_N_eqb d %s && %s && "
                         "match unpack_contents cls nrm bytes loads_raw aes true true wk d with inr ch => view_eqb (view bytes ch) %s | inl _ => false end && "
